@@ -1,8 +1,14 @@
-import EdpVerif.Drv.Common
+import EdpVerif.Drv.C11
+import EdpVerif.Spec.ErlOrder
 namespace Edp.Drv
+open Edp
 
-/-- driver requests of property C12 (stub: nothing handled yet) -/
+/-- C12 oracle: Erlang's order on the denoted values -/
 def handleC12 : List String → Option String
+  | ["c12cmp", a, b] => some <| run do
+    let a ← getTerm a
+    let b ← getTerm b
+    pure (ordText (Erl.cmp a.den b.den))
   | _ => none
 
 end Edp.Drv
